@@ -1409,7 +1409,9 @@ class Sum(Linop):
         device = backend.get_device(input)
         xp = device.xp
         with device:
-            return xp.sum(input, axis=self.axes)
+            # Summing over every axis gives a scalar; keep it a 0-d array so
+            # that downstream operators do not take it for a scaling factor.
+            return xp.asarray(xp.sum(input, axis=self.axes))
 
     def _adjoint_linop(self):
         return Tile(self.ishape, self.axes)
